@@ -146,6 +146,11 @@ def decide(prop: str, vres: dict, kani: dict, tier: str, seed: int, t0: float, m
         ps, why = failure_props(f, fi)
         if prop not in ps:
             continue
+        if f['class'] == 'pre' and why == 'label' and f.get('fn') not in fns_serving:
+            # a callee's labelled precondition failing in a caller that is not (yet) under contract for this property:
+            # outside the claimed coverage, listed in evidence
+            uncovered.append('%s (caller not under contract): %s' % (f.get('fn'), obligation_name(f)))
+            continue
         name = obligation_name(f)
         if f['class'] == 'rlimit':
             undecided.append('resource limit in %s' % f.get('fn'))
@@ -250,6 +255,7 @@ def decide(prop: str, vres: dict, kani: dict, tier: str, seed: int, t0: float, m
         'known_findings_hit': sorted({k['id'] for k, _, _ in known_hits}),
         'failed_obligations': sorted(failed_obls)[:50],
         'undecided': sorted(set(undecided)),
+        'outside_coverage': sorted(set(uncovered))[:60],
         'solver_ms_total': vres.get('smt_ms'),
         'verus_wall_s': vres.get('verus_s'),
         'cache_hit': vres.get('cache_hit'),
